@@ -57,7 +57,9 @@ def parseOp (f : List String) : Option Op :=
   | "create" :: r :: _ => some (.create (idx! r) (parseGI f))
   | "setgi" :: r :: _ => some (.setgi (idx! r) (kv f "by" = "owner") (parseGI f))
   | "force" :: r :: _ => (parseGI f).map fun g => .force (idx! r) (kv f "by" = "gov") g
-  | "plan" :: r :: _ => some (.plan (idx! r) (kv f "by" = "owner") (int! (kv f "alloc")) (kvN f "dur"))
+  -- `te=0`: MsgCreatePlan.trading_enabled = false; lines without the token (older replays) mean te=1
+  | "plan" :: r :: _ => some (.plan (idx! r) (kv f "by" = "owner") (int! (kv f "alloc")) (kvN f "dur") (kv f "te" != "0"))
+  | "enable" :: r :: _ => some (.enable (idx! r) (kv f "by" = "owner"))
   | "tick" :: _ => some (.tick (kvN f "dt"))
   | "seq" :: r :: _ => some (.seq (idx! r))
   | "link" :: r :: _ => some (.link (idx! r))
@@ -86,11 +88,14 @@ def renderGI (g : GInfo) : String :=
 def renderRa (r : Ra) : String :=
   let pl := match r.preLaunch with | some t => toString t | none => "-"
   let plan := match r.plan with | some (a, st) => s!"{a}:{b2s st}" | none => "-"
+  -- the plan's trading flag and start time (relative seconds; "-" = the zero time: trading never enabled)
+  let te := if r.plan.isSome then b2s r.te else "-"
+  let ps := match r.pstart with | some t => toString t | none => "-"
   let ch := match r.chan with | some c => toString c | none => "-"
   -- after an IRO settlement the IRO module moves its vouchers on (pool, incentives): not part of this model
   let bal := (r.bal.filter (fun x => x.2 != 0 && !(x.1 == iroAddr && r.plan.isSome))).foldl (fun acc x => insSorted x acc) []
   let bals := if bal.isEmpty then "-" else joinWith "," (bal.map fun x => s!"{x.1}:{x.2}")
-  s!" | r{r.id} l={b2s r.launched} gi={renderGI r.gi} pl={pl} plan={plan} ch={ch} tph={r.tph} md={b2s r.md} bal={bals}"
+  s!" | r{r.id} l={b2s r.launched} gi={renderGI r.gi} pl={pl} plan={plan} te={te} ps={ps} ch={ch} tph={r.tph} md={b2s r.md} bal={bals}"
 
 def gerrName : GErr → String
   | .badPrefix => "badPrefix" | .badChecksum => "badChecksum" | .noNative => "noNative" | .badMetadata => "badMetadata"
